@@ -6,15 +6,16 @@ rows = []
 for p in sorted(glob.glob(os.path.join(HERE, 'seeded', '*', 'meta.json'))):
     m = json.load(open(p))
     obl = '; '.join('%s: %s' % (k, ', '.join(v)) for k, v in sorted(m['checks']['obligations'].items()))
-    rows.append('| `%s` | %s | %s | %s | %s |' % (m['name'], m['breaks_property'], ' '.join(m['checks']['caught_by']) or '**none**',
-                'yes' if m['checks']['target_check_catches'] else 'NO', obl[:500]))
+    ran = m['checks'].get('checked_properties')
+    rows.append('| `%s` | %s | %s | %s | %s | %s |' % (m['name'], m['breaks_property'], ' '.join(m['checks']['caught_by']) or '**none**',
+                'yes' if m['checks']['target_check_catches'] else 'NO', 'all claimed' if not ran or len(ran) > 15 else ' '.join(ran), obl[:500]))
 out = ['# Seeded changes', '',
        'Each directory holds a breaking change written by a fresh sub-agent that saw only one property record and its own scratch',
        'worktree of /repo (nothing from /verif): `patch.diff`, `demo.diff` (a test that fails with the change and passes without it),',
        'the author\'s `README.md`, and `meta.json` (what it needs to manifest; my own confirmation in a scratch worktree: the 407 baseline',
        'tests still pass with the patch, the demo fails with it and passes without it; and which checks report it when it is applied to /repo).',
        'None of these changes is ever committed to /repo.', '',
-       '| seed | written against | reported by (exit 1) | target check catches it | failing obligations |', '|---|---|---|---|---|'] + rows + ['']
+       '| seed | written against | reported by (exit 1) | target check catches it | checks run | failing obligations |', '|---|---|---|---|---|---|'] + rows + ['']
 hist = os.path.join(HERE, 'seeded', 'HISTORY.md')
 if os.path.exists(hist):
     out += [open(hist).read()]
